@@ -78,6 +78,7 @@ def marker_replay(_name):
 
 def main(tier, write_baseline=False):
     run = Run("C01", tier, "other", checker_cmd=common.checker_cmd("C01", tier))
+    M.RAISE_CTX.update(prop="C01", write=bool(write_baseline))
     run.trusted_base.update(["cddvc E1 (string VCs with Python slice/index semantics)", "z3 5.1"])
     refuted = e1.run_contracts(run, "contracts.C01")
     refuted, rule_inputs = run.confirm_or_undecide(refuted, marker_replay)
@@ -123,6 +124,7 @@ def main(tier, write_baseline=False):
         run.violation(o["name"], "obligation refuted by %s on path %s%s" % (o["backend"], " ".join(o["trace"]), (": " + "; ".join(o.get("notes") or [])) if o.get("notes") else ""),
                       failing_input=fi, solver_output={"model": o["model"], "smt2": (o["smt2"] or "")[:4000], "notes": o.get("notes")})
     M.report(run, "C01/bounded", fails)
+    M.flush_raise_baseline()
     common.apply_controls(run, tier)
     return run.finish(explanation="PROVED (thin lemmas): the quoting helpers meet their contracts; unquote(quote(s)) == s and quote is idempotent. "
                       "BOUNDED only: the round-trip itself — the scanners and parsers (_scan_phase_*, _parse_phase_*, extract_default) are string-heavy code outside the engine's reach.")
